@@ -125,8 +125,14 @@ class FortranBackend(BaseBackend):
         # Fortran is case-insensitive: a model variable called e, Pi or i shadows the constant of that name inside the
         # generated routines. Generated code therefore refers to the constants by names no model variable can have
         # (PI, E and I stay declared for hand-written Fortran snippets).
-        self._imports.append("double precision :: PR_CONST_PI = 4.0d0*atan(1.0d0)")
-        self._imports.append("double precision :: PR_CONST_E = exp(1.0d0)")
+        # (declared in the precision of the model: a double precision constant in a single precision expression would
+        #  make it an argument of the wrong kind for the single precision helper functions)
+        if '64' in str(self._float_precision):
+            self._imports.append("double precision :: PR_CONST_PI = 4.0d0*atan(1.0d0)")
+            self._imports.append("double precision :: PR_CONST_E = exp(1.0d0)")
+        else:
+            self._imports.append("real :: PR_CONST_PI = 4.0*atan(1.0)")
+            self._imports.append("real :: PR_CONST_E = exp(1.0)")
         self._imports.append("complex :: PR_CONST_I = (0.0, 1.0)")
 
     def add_var_update(self, lhs: ComputeVar, rhs: str, lhs_idx: Optional[str] = None, rhs_shape: Optional[tuple] = ()):
